@@ -9,7 +9,11 @@ ROOT = os.path.abspath(os.path.join(os.path.dirname(__file__), '..'))
 COQ = os.path.join(ROOT, 'coq')
 CACHE = os.path.join(ROOT, '.cache')
 TARGET = os.path.join(CACHE, 'target')
-REPO = '/repo'
+# The repository under test.  Registered checks always use /repo; VERIF_REPO
+# is only for trying the checks against a scratch worktree (seeded mutants)
+# without disturbing /repo: the harness crates are then copied to
+# .cache/alt/<tag>/ with their path dependency rewritten.
+REPO = os.environ.get('VERIF_REPO', '/repo').rstrip('/')
 NPROC = min(16, os.cpu_count() or 4)
 
 ENV = dict(os.environ, CARGO_NET_OFFLINE='true', CARGO_TARGET_DIR=TARGET, RUST_BACKTRACE='0')
@@ -385,7 +389,21 @@ def build_impl(area, profile='debug', plain=False):
     crate = 'harness_plain' if plain else 'harness'
     binname = ('p_' if plain else 'h_') + area
     tdir = os.path.join(CACHE, 'target-plain') if plain else TARGET
-    cmd = ['cargo', 'build', '--offline', '--manifest-path', os.path.join(ROOT, crate, 'Cargo.toml'), '--bin', binname]
+    crate_dir = os.path.join(ROOT, crate)
+    if REPO != '/repo':
+        tag = hashlib.sha1(REPO.encode()).hexdigest()[:8]
+        alt = os.path.join(CACHE, 'alt', tag)
+        with Lock('alt_%s.lock' % tag):
+            for cr in ('harness', 'harness_plain'):
+                dst = os.path.join(alt, cr)
+                shutil.rmtree(dst, ignore_errors=True)
+                shutil.copytree(os.path.join(ROOT, cr), dst, ignore=shutil.ignore_patterns('target'))
+                mf = os.path.join(dst, 'Cargo.toml')
+                txt = open(mf).read().replace('"/repo/core"', '"%s/core"' % REPO)
+                open(mf, 'w').write(txt)
+        crate_dir = os.path.join(alt, crate)
+        tdir = os.path.join(alt, 'target-plain' if plain else 'target')
+    cmd = ['cargo', 'build', '--offline', '--manifest-path', os.path.join(crate_dir, 'Cargo.toml'), '--bin', binname]
     if profile == 'release':
         cmd.append('--release')
     rc, out = sh(cmd, timeout=1800, env=dict(ENV, CARGO_TARGET_DIR=tdir))
@@ -402,11 +420,12 @@ def build_cli():
         return _cli_built['cli']
     cmd = ['cargo', 'build', '--offline', '--manifest-path', os.path.join(REPO, 'Cargo.toml'), '-p', 'fend',
            '--features', 'verif-hooks']
-    env = dict(ENV, CARGO_TARGET_DIR=os.path.join(CACHE, 'target-cli'))
+    tcli = os.path.join(CACHE, 'target-cli') if REPO == '/repo' else os.path.join(CACHE, 'alt', hashlib.sha1(REPO.encode()).hexdigest()[:8], 'target-cli')
+    env = dict(ENV, CARGO_TARGET_DIR=tcli)
     rc, out = sh(cmd, timeout=1800, env=env)
     if rc != 0:
         raise RuntimeError('cargo build of fend cli failed:\n' + out[-4000:])
-    _cli_built['cli'] = os.path.join(CACHE, 'target-cli', 'debug', 'fend')
+    _cli_built['cli'] = os.path.join(tcli, 'debug', 'fend')
     return _cli_built['cli']
 
 # ----------------------------------------------------------------------------
@@ -672,6 +691,8 @@ class Check:
             if path in seen:
                 continue
             seen.add(path)
+            if len(seen) > 12:
+                continue   # the evidence and corpus/ hold all of them; keep the console readable
             print('VIOLATION property=%s replay=%s%s' % (self.prop, path, ' no-failing-input-found' if no_input else ''))
         print('%s %s tier=%s seed=%d evaluations=%d nontrivial=%d obligations=%d/%d violations=%d known=%d wall=%.1fs' % (
             'FAIL' if self.violations else 'PASS', self.prop, self.tier, self.seed, self.evaluations,
